@@ -7,6 +7,7 @@ import AskarModel.Model.Spec
 import AskarModel.Lemmas.Refine
 import AskarModel.Model.SqlShape
 import AskarModel.Generated.Stmts
+import AskarModel.Generated.StmtsPg
 import AskarModel.Generated.Tables
 
 namespace Askar.Store
@@ -78,6 +79,20 @@ open Askar.Sql in
 theorem tag_stmts_match_source :
     shapeOk Generated.tagInsertQuery Expected.tagInsertQuery = true ∧ shapeOk Generated.tagDeleteQuery Expected.tagDeleteQuery = true := by decide
 
+/-- The POSTGRES backend's statements (backend/postgres/mod.rs, re-extracted on every run) have the shapes the same model
+    assumes of them: same identity / scope atoms, Postgres' expiry conjunct, `ON CONFLICT DO NOTHING RETURNING id`, and a
+    row-locking twin of the fetch.  No Postgres server exists in the sandbox: this tie is by proof obligation only. -/
+theorem pg_stmts_match_source :
+    Sql.shapeOk Sql.GeneratedPg.insertQuery Sql.ExpectedPg.insertQuery = true ∧
+    Sql.shapeOk Sql.GeneratedPg.updateQuery Sql.ExpectedPg.updateQuery = true ∧
+    Sql.shapeOk Sql.GeneratedPg.deleteQuery Sql.ExpectedPg.deleteQuery = true ∧
+    Sql.shapeOk Sql.GeneratedPg.deleteAllQuery Sql.ExpectedPg.deleteAllQuery = true ∧
+    Sql.shapeOk Sql.GeneratedPg.fetchQuery Sql.ExpectedPg.fetchQuery = true ∧
+    Sql.shapeOk Sql.GeneratedPg.fetchQueryUpdate Sql.ExpectedPg.fetchQueryUpdate = true ∧
+    Sql.shapeOk Sql.GeneratedPg.scanQuery Sql.ExpectedPg.scanQuery = true ∧
+    Sql.shapeOk Sql.GeneratedPg.countQuery Sql.ExpectedPg.countQuery = true ∧
+    Sql.shapeOk Sql.GeneratedPg.tagInsertQuery Sql.ExpectedPg.tagInsertQuery = true ∧
+    Sql.shapeOk Sql.GeneratedPg.tagDeleteQuery Sql.ExpectedPg.tagDeleteQuery = true := by decide
 
 /-- the integers behind `Kind` (`items.kind`; the generators and the driver use 1 = Kms, 2 = Item) are the CURRENT source's
     `enum EntryKind` discriminants (regenerated from askar-storage/src/entry.rs on every run) -/
